@@ -15,6 +15,8 @@
 Require Import ZArith List Bool. Require Import IW.Lib.CInt IW.Gen.Facts IW.FS.Exf IW.FS.Exf_proofs IW.FS.ExfFile IW.FS.ExfFile_proofs.
 Import ListNotations. Local Open Scope Z_scope.
 
+Lemma ps_ok : PsOk EXF_PSIZE. Proof. exists 12. split; [Lia.lia | reflexivity]. Qed.
+
 (* (1) the macro of the current source is interval intersection for non-empty intervals *)
 Theorem C12_ranges_overlap_correct : forall s1 e1 s2 e2, s1 < e1 -> s2 < e2 ->
   (IW_RANGES_OVERLAP s1 e1 s2 e2 <> 0 <-> Z.max s1 s2 < Z.min e1 e2).
@@ -193,38 +195,39 @@ Theorem C12_open_inv : forall q ok f initial mo p rc st, PsOk EXF_PSIZE -> zlen 
 Proof. exact open_inv. Qed.
 Print Assumptions C12_open_inv.
 
-(* the configured maximum.  In the repaired variant (a maximum below one page is rejected by iwfs_exfile_open) an opened file has
-   the limit it was given, rounded down to a page - never "no limit" in its place; together with C12_size_inv: the size never
-   exceeds the configured maximum *)
-Theorem C12_maxoff_honoured : forall q ok f initial mo p st, q_maxoff_small q = true -> PsOk EXF_PSIZE -> 0 <= mo < 2 ^ 63 ->
-  exfile_open q ok f initial mo p = (0, st) ->
+(* the configured maximum.  The current code (c1b1b57: a maximum below one page is refused by iwfs_exfile_open - the behavioural fact
+   EXF_SMALL_MAXOFF_REJECTED of the tree is part of `tree_quirks`, the statement stops checking if the repair is reverted): an
+   opened file has the limit it was given, rounded down to a page - never "no limit" in its place; together with C12_size_inv:
+   the size never exceeds the configured maximum *)
+Theorem C12_maxoff_honoured : forall ok f initial mo p st, 0 <= mo < 2 ^ 63 ->
+  exfile_open tree_quirks ok f initial mo p = (0, st) ->
   (mo = 0 /\ maxoff st = 0) \/ (0 < maxoff st <= mo /\ mo - EXF_PSIZE < maxoff st).
-Proof. exact maxoff_honoured. Qed.
+Proof. intros ok f initial mo p st. exact (maxoff_honoured tree_quirks ok f initial mo p st eq_refl ps_ok). Qed.
 Print Assumptions C12_maxoff_honoured.
 
-(* ... which is false of the unrepaired variant (the tree as it is: EXF_SMALL_MAXOFF_REJECTED = false): a maximum of 100 bytes is
-   accepted and means "unlimited" - 300 bytes are written and the file has 4096 bytes (corpus/C12/09) *)
+(* ... which is false of the old variant of the open (before c1b1b57, selected by the flag q_maxoff_small = false): a maximum of
+   100 bytes is accepted and means "unlimited" - 300 bytes are written and the file has 4096 bytes (corpus/C12/09 now answers INVARGS) *)
 Theorem C12_small_maxoff_refuted : exists mo, 0 < mo /\
   let '(rc, st) := exfile_open orig_quirks os_any [] 0 mo PDefault in
   rc = 0 /\ maxoff st = 0 /\ fsize (snd (exfile_write orig_quirks os_any st 0 (repeat 7 300))) = 4096.
 Proof. exists 100. vm_compute. repeat split; reflexivity. Qed.
 Print Assumptions C12_small_maxoff_refuted.
 
-(* the lock of the handle (use_locks = 1, one caller; `held` = read locks the caller holds).  In the repaired variant a call
-   either cannot proceed because the caller itself still holds a read lock from a successful acquire_mmap (nothing changes),
-   or it is the call of the model and only a successful acquire_mmap / a release_mmap change the number of locks held;
+(* the lock of the handle (use_locks = 1, one caller; `held` = read locks the caller holds).  The current code (58fb82b:
+   _exfile_acquire_mmap gives the read lock back when it answers IWFS_ERROR_NOT_MMAPED; fact EXF_ACQ_FAIL_UNLOCKS in `tree_quirks`):
+   a call either cannot proceed because the caller itself still holds a read lock from a successful acquire_mmap (nothing
+   changes), or it is the call of the model and only a successful acquire_mmap / a release_mmap change the number of locks held;
    a caller that holds none is never blocked *)
-Theorem C12_lock_balance : forall q ok held st o r held' st', q_acq_unlocks q = true -> lstep q ok held st o = (r, held', st') ->
+Theorem C12_lock_balance : forall ok held st o r held' st', lstep tree_quirks ok held st o = (r, held', st') ->
   (o_rc r = EXF_HANG /\ 0 < held /\ needs_wlock st o = true /\ held' = held /\ st' = st) \/
-  ((r, st') = step q ok st o /\
+  ((r, st') = step tree_quirks ok st o /\
    held' = held + match o with OAcquire _ => if o_rc r =? 0 then 1 else 0 | ORelease => -1 | _ => 0 end).
-Proof. exact lstep_balance. Qed.
+Proof. intros ok held st o r held' st'. exact (lstep_balance tree_quirks ok held st o r held' st' eq_refl). Qed.
 Print Assumptions C12_lock_balance.
 
 
 
 (* the hypotheses are satisfiable and the current tree is the repaired one: a concrete history on a freshly opened file *)
-Lemma ps_ok : PsOk EXF_PSIZE. Proof. exists 12. split; [Lia.lia | reflexivity]. Qed.
 Lemma opened_inv : forall ok f initial mo p, zlen f <= LIM -> 0 <= initial <= LIM -> 0 <= mo <= LIM ->
   (mo < EXF_PSIZE \/ zlen f <= mo / EXF_PSIZE * EXF_PSIZE) -> pol_ok p -> fst (exfile_open tree_quirks ok f initial mo p) = 0 ->
   Inv (snd (exfile_open tree_quirks ok f initial mo p)) /\ Shared (snd (exfile_open tree_quirks ok f initial mo p)) /\ Full (snd (exfile_open tree_quirks ok f initial mo p)).
@@ -352,9 +355,9 @@ Proof.
 Qed.
 Print Assumptions C12_copy_src_refuted.
 
-(* ... false of the unrepaired variant (the tree as it is: EXF_ACQ_FAIL_UNLOCKS = false): acquire_mmap of an offset that has no
-   window answers IWFS_ERROR_NOT_MMAPED and keeps the read lock; the next call that needs the write lock never returns
-   (corpus/C12/10) *)
+(* ... false of the old variant of acquire_mmap (before 58fb82b, flag q_acq_unlocks = false): acquire_mmap of an offset that has
+   no window answers IWFS_ERROR_NOT_MMAPED and keeps the read lock; the next call that needs the write lock never returns
+   (corpus/C12/10 now passes without HANG) *)
 Theorem C12_acquire_leak_refuted : exists st, Inv st /\
   let '(r1, h1, st1) := lstep orig_quirks os_any 0 st (OAcquire 8192) in
   o_rc r1 = EXF_E_NOTMM /\ h1 = 1 /\ o_rc (fst (fst (lstep orig_quirks os_any h1 st1 (OTruncate 8192)))) = EXF_HANG.
@@ -428,3 +431,22 @@ Example C12_file_ex :
   (let '(rc, h, k) := file_open (mkFo 0 0 0) None in
    rc = 0 /\ k = Some [] /\ match h with Some p => fst (pf_read (snd (pf_write p 3 [7; 8])) 0 10) = (0, 5) | None => False end).
 Proof. vm_compute. repeat split. Qed.
+
+(* the copy.  With 8dc0de1 a forward-overlapping copy that goes through the file is carried out like the one through a window: (3a)/(3b)
+   cover copy without exception (spec_copy has no refusal left).  The old variant of iwp_copy_bytes (flag q_copy_fwd = false)
+   answered IW_ERROR_OVERFLOW - after _exfile_ensure_size_lw had grown the file (corpus/C12/11 now answers OK twice) *)
+Theorem C12_copy_fwd_refuted : exists st, Inv st /\ Shared st /\
+  let '(rc, st') := exfile_copy (mkQ true true true false true true) os_any st 0 12288 8192 in
+  rc = EXF_E_OVERFLOW /\ fsize st = 12288 /\ fsize st' = 20480.
+Proof. exists ex_st3. destruct ex_st3_ok as [A [B _]]. split; [exact A |]. split; [exact B |]. vm_compute. repeat split. Qed.
+Print Assumptions C12_copy_fwd_refuted.
+
+(* the same forward-overlapping copy without a window and through a whole-file window: same answers, same bytes *)
+Definition ex_fwd_ops : list op := [OWrite 0 [1; 2; 3; 4; 5]; OCopy 0 8192 4096; ORead 4096 5; ORead 8192 5; OState].
+Example C12_copy_fwd_ex :
+  RunOk tree_quirks os_any ex_st3 ex_fwd_ops /\ RunOk tree_quirks os_any ex_st3 (OAddMmap 0 18446744073709551615 0 :: ex_fwd_ops) /\
+  map (fun r => (o_rc r, o_sp r, o_data r)) (fst (run tree_quirks os_any ex_st3 ex_fwd_ops)) =
+    [(0, 5, []); (0, 0, []); (0, 5, [1; 2; 3; 4; 5]); (0, 5, [0; 0; 0; 0; 0]); (0, 12288, [])] /\
+  tl (map (fun r => (o_rc r, o_sp r, o_data r)) (fst (run tree_quirks os_any ex_st3 (OAddMmap 0 18446744073709551615 0 :: ex_fwd_ops)))) =
+    map (fun r => (o_rc r, o_sp r, o_data r)) (fst (run tree_quirks os_any ex_st3 ex_fwd_ops)).
+Proof. split; [apply runok_b_ok; vm_compute; reflexivity |]. split; [apply runok_b_ok; vm_compute; reflexivity |]. split; vm_compute; reflexivity. Qed.
